@@ -207,3 +207,4 @@ def check(ctx):
         ctx.ob("R-WHO", DT, "del-timer/owner-is-fd-mod-workers", ok, "the owning selector is fd % workers, as in add_io_timer" if ok else "del_timer computes the owning selector differently from add_io_timer (fd % workers)", f.where())
     ctx.order(SEL + "::select", Call(re.escape(RT), transitive=False), Call(r"may::scheduler::Scheduler::schedule_with_id|may::coroutine_impl::run_coroutine", transitive=False),
               "select/remove-then-schedule-handed-over", "a handed-over coroutine is scheduled only after its timer was removed", need_b=True) if False else None
+    shared.injected_kinds(ctx)
